@@ -295,7 +295,7 @@ def build_runner(build, profile='dev', features=None):
     binpath = os.path.join(cdir, 'runner-%s-%s' % (profile, tag))
     if os.path.exists(binpath): return binpath
     t0 = time.time()
-    mirror = os.path.join(build.scratch, 'mirror'); rdir = os.path.join(build.scratch, 'runner')
+    mirror = os.path.join(build.scratch, 'mirror'); rdir = os.path.join(build.scratch, 'runner-%d-%s' % (os.getpid(), tag[:8]))      # forked workers share the scratch copy: one directory per builder
     if not os.path.exists(mirror): make_mirror(build, mirror)
     shutil.rmtree(rdir, ignore_errors=True)
     os.makedirs(os.path.join(rdir, 'src'))
@@ -327,7 +327,7 @@ def build_runner(build, profile='dev', features=None):
     build.timings['runner-' + profile] = round(time.time() - t0, 2)
     # keep the cache small
     olds = sorted((os.path.getmtime(os.path.join(cdir, f)), f) for f in os.listdir(cdir))
-    for _, f in olds[:-12]:
+    for _, f in olds[:-120]:
         try: os.remove(os.path.join(cdir, f))
         except OSError: pass
     return binpath
